@@ -298,6 +298,11 @@ class Codec:
                     # pop the completed group off the stack
                     del repeating_groups[-1]
 
+                if not repeating_groups and tag in decoded_msg:
+                    # every group is closed and the tag is repeated at message level
+                    decoded_msg.set(tag, RepeatingTagError)
+                    continue
+
                 if tag in current_context.tags:
                     # if the repeating group already contains this field,
                     #     start the next
